@@ -20,6 +20,7 @@ for s in $seeds; do
     C10-r3-1|C10-r5-1) props="C10 C02";;      # the returned LayerData of the trait API: C02's subject
     C03-r9-2|C07-r9-2) props="${s%%-*} C02";; C06-r9-2) props="C06 C09";; C07-r9-1) props="C07 C01";; C08-r9-1|C09-r9-2) props="${s%%-*} C14";; C13-r9-1) props="C13 C15";; C13-r9-2) props="C13 C16";;
     C03-r10-1|C07-r10-2|C08-r10-1) props="${s%%-*} C02";; C04-r10-1) props="C04 C10";; C06-r10-2) props="C06 C08";; C09-r10-1) props="C09 C13";; C09-r10-2) props="C09 C07";; C13-r10-1|C13-r10-2|C14-r10-1|C14-r10-2) props="${s%%-*} C15";;
+    C04-r12-2|C10-r12-1|C10-r12-2|C20-r12-2) props="${s%%-*} C03";; C08-r12-2|C07-r12-2) props="${s%%-*} C01";; C13-r12-2) props="C13 C15";;
     C04-r11-2) props="C04 C10";; C07-r11-1) props="C07 C12";; C07-r11-2) props="C07 C01";; C08-r11-1) props="C08 C06";; C20-r11-2) props="C20 C05";;
     C02-r5-1) props="C02 C01";; C07-r5-1) props="C07 C01";; C08-r6-1) props="C08 C06";; C08-r6-2) props="C08 C15";; C08-r7-2) props="C08 C13";;      # a refused write that damages the layer file: seen by the next request (C01)
     *) props=${s%%-*};;
